@@ -40,7 +40,7 @@ Proof. exact three_contours_120. Qed.
 Print Assumptions C09_three_roll_contours_map_under_120_degrees.
 
 Theorem C09_three_roll_gap_icd_roundtrip : forall rho g g' icd gp,
-  g' "has_set_or_cached" "inscribed_circle_diameter" = true ->
+  g' "has_set" "inscribed_circle_diameter" = true ->
   resolve rho g chain_ThreeRollPass__inscribed_circle_diameter = CVal icd ->
   resolve (upd rho "inscribed_circle_diameter" icd) g' chain_ThreeRollPass__gap = CVal gp ->
   gp = rho "gap".
